@@ -808,6 +808,30 @@ class Container:
     def __hash__(self):
         return hash((self.name, self.volume, self.max_volume, *tuple(map(tuple, self.contents.items()))))
 
+    def _concentration_allowance(self, solute: Substance, denominator: str) -> float:
+        """
+        How well this container's own concentration of `solute` per `denominator` ('L', 'g', 'mol', 'U') is known,
+        relative to it: the ten digits a stated or reported concentration carries, half a stored digit of the solute
+        (its amount was rounded once), one stored digit of everything the concentration is stated per (and of the
+        stored volume, per litre). A request for a concentration that close to the container's own needs nothing;
+        any other is a real request - whatever the sizes of the portions it works out to.
+        """
+        digit = 10 ** -config.internal_precision
+
+        def measure(substance: Substance, value: float) -> float:
+            return abs(Unit.convert_from(substance, value,
+                                         'U' if substance.is_enzyme() else config.moles_storage_unit, denominator))
+
+        allowance = 1e-9
+        if self.contents.get(solute, 0) > 0:
+            allowance += 0.5 * digit / self.contents[solute]
+        bottom = sum(measure(substance, value) for substance, value in self.contents.items())
+        if 0 < bottom < float('inf'):
+            allowance += sum(measure(substance, digit) for substance in self.contents) / bottom
+        if denominator == 'L' and self.volume > 0:
+            allowance += digit / self.volume
+        return allowance
+
     def _self_add(self, source: Substance, quantity: str) -> None:
         """
 
@@ -1498,14 +1522,18 @@ class Container:
             a[1] = numpy.array([d_x / mw_x, d_y / mw_y])
 
         b[1] = quantity_value
-        x, y = numpy.linalg.solve(a, b)
-        # an amount of zero comes out of the solver as noise of either sign (no solvent is needed for the stock's own
-        # concentration): noise is relative to the other amount - the last digits of a float - never an absolute volume
-        # (... and one stored digit of the solute: the stock's own concentration is known no better than that)
-        # Only the solvent portion can be such a zero, and then the whole quantity comes from the source.
-        negligible = 1e-9 + 10 ** -config.internal_precision * (1 / source.contents[solute] + 1 / source.volume)
-        if abs(y) <= negligible * (abs(x) + abs(y)) and a[1][0] > 0:
+        # The source's own concentration needs no solvent (the solver would return that zero as noise of either sign), and
+        # that of a solvent container which holds the solute nothing from the source. What "own" means is decided on the
+        # concentrations, as well as they are known - never on the sizes of the portions.
+        own = [top[i] / bottom[i] if bottom[i] else float('inf') for i in (0, 1)]
+        if (abs(concentration - own[0]) <= source._concentration_allowance(solute, denominator) * own[0]
+                and a[1][0] > 0):
             x, y = quantity_value / a[1][0], 0.
+        elif (isinstance(solvent, Container) and top[1] > 0 and a[1][1] > 0 and
+              abs(concentration - own[1]) <= solvent._concentration_allowance(solute, denominator) * own[1]):
+            x, y = 0., quantity_value / a[1][1]
+        else:
+            x, y = numpy.linalg.solve(a, b)
         if x < 0 or y < 0:
             raise ValueError("Solution is impossible to create.")
 
@@ -1612,8 +1640,8 @@ class Container:
 
         # the current concentration itself (as reported: ten significant digits; as computed: to the last digits of a
         # float and of the stored amounts) needs no solvent
-        stored_decimals = 10 ** -config.internal_precision / self.contents[solute]  # (relative: what one stored digit is)
-        if bottom and abs(new_concentration - current_concentration) <= (1e-9 + stored_decimals) * current_concentration:
+        if bottom and abs(new_concentration - current_concentration) <= \
+                self._concentration_allowance(solute, denominator) * current_concentration:
             result = deepcopy(self)
             if name:
                 result.name = name
